@@ -232,10 +232,22 @@ def templateParts (fields : List Field) : List Part :=
 /-- What the observer holds: the macro-built collection itself (`props!`), or the event's props at the emitter
     (`emit!`): `props.and_props(base_props)` (macro_hooks.rs:763-774, base props `Empty`) `.and_props(ctxt)`
     (core/src/lib.rs:70-72, ambient context `Empty`) behind `&dyn ErasedProps`. -/
-def siteProps (kind : SiteKind) (arr : List (String × Option Val)) : P :=
+def siteProps (kind : SiteKind) (fields : List Field) (arr : List (String × Option Val)) : P :=
   match kind with
   | .props => .macro arr
   | .emit => .ref (.erased (.and (.and (.ref (.macro arr)) (.ref .empty)) (.ref .empty)))
+  | .span =>
+    -- `SpanGuard::new` pushes `ctxt_props.and_props(span_ctxt)` onto the ambient context (src/span.rs:966-967; no id
+    -- generator: the span context is empty); on completion the event carries `[lvl?, err?]` (both `None`), the
+    -- `Span<Empty>` view named by the template literal, and the ambient frame (src/span.rs:1198-1224,
+    -- core/src/lib.rs:70-72)
+    let name := " ".intercalate (fields.map fun f => f.ident ++ "={" ++ f.ident ++ "}")
+    let frame := P.frame (pushInto [] (enum (.and (.ref (.macro arr)) (.ref (.spanCtxt none none none)))))
+    .ref (.erased (.and (.and (.arr [.optNone, .optNone]) (.ref (.spanView name .empty))) (.ref frame)))
+
+/-- insertion sort of rendered pairs (span sites: the frame's hash order is canonicalised by sorting on both sides) -/
+def sortStrings (xs : List String) : List String :=
+  xs.foldl (fun acc x => (acc.takeWhile (· ≤ x)) ++ x :: acc.dropWhile (· ≤ x)) []
 
 def runMacro (line : String) : String :=
   match Sexp.parse line with
@@ -245,14 +257,18 @@ def runMacro (line : String) : String :=
       match expand fx.fields with
       | none => "rejected"
       | some arr =>
-        let p := siteProps fx.kind arr
+        let p := siteProps fx.kind fx.fields arr
         let u := match fx.kind with
           | .props => showBool (isUnique p)
-          | .emit => "-"
+          | _ => "-"
+        let kind := match fx.kind with | .props => "props" | .emit => "emit" | .span => "span"
+        let e := match fx.kind with
+          | .span => ",".intercalate (sortStrings ((enum p).map fun (k, v) => hx k ++ ":" ++ showVal v))
+          | _ => showPairs (enum p)
         let renamed := fx.fields.any fun f => f.ident != f.key
         let sig := if fx.fields.isEmpty then "trivial"
-          else s!"kind={match fx.kind with | .props => "props" | .emit => "emit"},n={fx.fields.length},renamed={renamed},none={fx.fields.any (·.val.isNone)},cfgoff={fx.fields.any (!·.cfg)}"
-        s!"e={showPairs (enum p)};u={u};g={",".intercalate (fx.queries.map fun q => showOptVal (get p q))}" ++
+          else s!"kind={kind},n={fx.fields.length},renamed={renamed},none={fx.fields.any (·.val.isNone)},cfgoff={fx.fields.any (!·.cfg)}"
+        s!"e={e};u={u};g={",".intercalate (fx.queries.map fun q => showOptVal (get p q))}" ++
         s!";m={hx (render (templateParts fx.fields) p)}\t{sig}"
     | none => "bad-op"
   | _ => "bad-op"
